@@ -396,8 +396,6 @@ func ruleC14(w *World, r *Report) {
 	}
 }
 
-
-
 // ruleC14Scratch: each Update/Create FAR IE is parsed into a FAR value of its own: the receiver of
 // parseFAR in the handlers' loops is a local declared inside the loop body (zeroed per element).
 func ruleC14Scratch(w *World, r *Report) {
@@ -424,7 +422,6 @@ func ruleC14Scratch(w *World, r *Report) {
 	}
 	r.floor("R14.3 parseFAR call sites in the handlers", n, 2)
 }
-
 
 // ruleC14EveryMarker: one marker per matching FAR all the way to the socket queue.
 //   - addEndMarker leaves without appending only when building the packet failed (an error of the
